@@ -7,12 +7,32 @@ MODEL_VO = ["theories/C05/Spec.vo"]
 PROOF_VO = ["theories/C05/Props.vo"]
 PROPS_V = "theories/C05/Props.v"
 EXTRACT = "extract/C05.v"
-DESIGN_REF = "DESIGN.md section 5, C05"
-TECHNIQUE = "tbd"
-RULE = "tbd"
-TRUSTED = []
-ASSUMPTIONS = []
-LEVEL_TEXT = "tbd"
-LEVEL_NOTE = "tbd"
+DESIGN_REF = "DESIGN.md section 5, C05 and Appendix C"
+TECHNIQUE = ("Coq proofs that the model of Bytes/GoValue produces and accepts exactly the reference layouts (written from the TDS 5.0 descriptions over a "
+             "reference calendar defined by walking days) + model-vs-implementation correspondence + reference layouts compared with the implementation's bytes and decodes")
+RULE = ("same value generators as C04 (see evidence/C04.json rule). fn 1: for (type, length, value) the implementation's Bytes output is compared with the Coq "
+        "reference layout_enc, the reference bytes (computed by the harness' own codec with its own civil-date arithmetic, math/big, encoding/binary, and checked "
+        "against layout_enc on every case) are decoded by the implementation's GoValue and compared with the value (exact, or to the tick with re-encoding to the same "
+        "bytes); fn 4: asetime.TimeToMicroseconds / DurationFromDateTime / DurationFromTime / MicrosecondsToTime / MillisecondToFractionalSecond / "
+        "FractionalSecondToMillisecond on the dense days, month boundaries, random microseconds, 2000 random microsecond counts of years 0..9999 and boundary "
+        "vectors, compared with the reference calendar (ref_index = number of next_day steps). Documented vectors (1753-01-01 = -53690, 9999-12-31 = 2958463, "
+        "2079-06-06 = 65535, money max, bigdatetime 0001-01-01 = 31622400000000, 'abc') are both cases and Coq Examples. "
+        "A case is non-trivial when its value is not NULL; distinct by (fn, input).")
+TRUSTED = ["Coq 8.16.1 kernel + vm_compute (no native_compute)",
+           "reference layouts coq/theories/C05/Layout.v and reference calendar coq/theories/C04/RefCalendar.v (the specification)",
+           "hand-written model coq/theories/C04/{GoInt,Calendar,Utf16,Model}.v (tied by this correspondence check), Gen/GenC04.v produced by executing the code",
+           "harness/cmd/c04 (canonicalisation of Go values, own reference codec whose output is itself checked against layout_enc), ocaml/driver.ml, extraction with ExtrOcamlBasic only",
+           "Go's time package and math/big"]
+ASSUMPTIONS = ["float64 tick conversions of asetime replaced by integer formulas in the model (validated by the correspondence run, not proved)",
+               "byte order = binary.LittleEndian, the value of the package variable tds.endian (announced in the login record; C06 ties that)",
+               "TIME: the nearest REPRESENTABLE tick is the reference (the last half tick of a day saturates at tick 25919999, fix 5c6f973); DATETIME carries into the next day",
+               "numeric precision/scale are not on the wire; money scale is 4 by definition of the type"]
+LEVEL_TEXT = ("Machine-checked theorems on the C04 domains: enc_value = layout_enc and dec_value (layout_enc v) = v (to the tick for the classic temporal types) for "
+              "integers, floats, money, numeric (every integer), unitext (UTF-16LE, all scalar values), char/binary, DATE (every day of years 1..9999), DATETIME, "
+              "SHORTDATE, TIME, BIGDATETIMEN, BIGTIMEN; C05_jdn_is_reference (Julian-day expression = reference day number, years 1..9999), "
+              "C05_time_to_microseconds, C05_microseconds_to_time (inverse and agreement with the reference), C05_fliegel_all_years (every year >= 1), "
+              "C05_ref_index_is_walk (the reference day number is the number of next_day steps), C05_le_word_byte, C05_be_mag_spec; summary C05_model_meets_layout: the model satisfies the executable layout specification on the whole domain; "
+              "Examples with the documented vectors.")
+LEVEL_NOTE = ("Trusted: Coq kernel, the reference layouts/calendar (specification), the hand-written model (validated with 0 mismatches), harness, extraction, driver. No axioms.")
 def nontrivial(c):
-    return True
+    return " () " not in c[1]
